@@ -123,6 +123,7 @@ fn version_bucket(extra: &serde_json::Value) -> String {
     };
     match extra["placement"].as_u64() {
         Some(p) if p > 0 && p < 4 => format!("[v {}][unrelated-pragma-first]", b),
+        Some(p) if p >= 5 => format!("[v {}][solidity-pragma-after-a-definition]", b),
         _ => format!("[v {}]", b),
     }
 }
@@ -172,6 +173,21 @@ pub fn floors(ctx: &Ctx, acc: &mut Acc, which: &[&'static str], min_must: u64, m
     }
 }
 
+/// deeply nested programs (operator chains and else-if chains of 70-300 links) with detector-relevant constructs at the deepest point
+fn deep_run(ctx: &Ctx, acc: &mut Acc, which: &'static [&'static str]) {
+    let n = ctx.tier.pick(24u64, 200u64);
+    run_workload(ctx, acc, "deep", n, |k, rng, acc| {
+        let depth = [70usize, 100, 150, 300][(k % 4) as usize];
+        let f = crate::deep::deep_file(rng, depth);
+        if let Some(p) = prepare(f, acc) {
+            acc.cov("programs:accepted");
+            acc.cov(&format!("deep:depth-{}", depth));
+            count_forms(&p, which, acc);
+            judge(&p, &format!("deep#{}(depth {})", k, depth), which, Layout::OneTokenPerLine, rng, acc, &json!({"depth": depth}));
+        }
+    });
+}
+
 fn generic_run(ctx: &Ctx, acc: &mut Acc, which: &'static [&'static str], workload: &str, n: u64, cfgf: impl Fn(u64, &Rng) -> Cfg + Sync) {
     run_workload(ctx, acc, workload, n, |k, rng, acc| {
         let cfg = cfgf(k, rng);
@@ -203,6 +219,7 @@ pub fn run_c05(ctx: &Ctx) -> i32 {
     );
     let n = ctx.tier.pick(3000u64, 60000u64);
     generic_run(ctx, &mut acc, &C05_DETS, "generated", n, |_k, _rng| Cfg::normal());
+    deep_run(ctx, &mut acc, &C05_DETS);
     floors(ctx, &mut acc, &C05_DETS, ctx.tier.pick(500, 5000), ctx.tier.pick(500, 2000));
     let positions = acc.cov.keys().filter(|k| k.starts_with("position:")).count();
     meta.extra.insert("distinct_positions_holding_a_MUST_form".into(), json!(positions));
@@ -530,6 +547,7 @@ pub fn run_c07(ctx: &Ctx) -> i32 {
             }
         }
     });
+    deep_run(ctx, &mut acc, &C07_DETS);
     floors(ctx, &mut acc, &C07_DETS, ctx.tier.pick(50, 500), ctx.tier.pick(50, 500));
     meta.assumptions = vec!["spec predicates per DESIGN.md 8.3; reversed comparisons, if-revert guards, emit arguments, capitalised 'Only', named-argument calls and functions without visibility are DONT_CARE".into()];
     finish(ctx, acc, meta)
@@ -729,7 +747,28 @@ fn c08_shaped(k: u64, rng: &Rng) -> File {
         parts.push(Part::Func(f));
     }
     c.parts = parts;
+    let base_name = c.name.clone();
     items.push(Item::Contract(c));
+    // now and then a derived contract (no constructor of its own) that writes the base contract's variables
+    if !vars.is_empty() && rng.chance(1, 3) {
+        let mut d = b.contract();
+        d.kind = "contract";
+        d.bases = vec![(base_name, None)];
+        let mut f = b.func(FnKind::Function, true, false);
+        f.attrs = vec![FAttr::Vis("external")];
+        let mut stmts = vec![];
+        for _ in 0..rng.range(1, 2) {
+            let vn: String = rng.pick(&vars).clone();
+            let v = b.var(&vn);
+            let r = b.num("3");
+            let op = *rng.pick(&[BinOp::Assign, BinOp::AssignAdd, BinOp::AssignOr]);
+            let e = b.bin(op, v, r);
+            stmts.push(b.st(S::Expr(e)));
+        }
+        f.body = Some(b.st(S::Block { unchecked: false, stmts }));
+        d.parts = vec![Part::Func(f)];
+        items.push(Item::Contract(d));
+    }
     drop(b);
     File { items }
 }
@@ -815,6 +854,7 @@ pub fn run_c08(ctx: &Ctx) -> i32 {
             }
         }
     });
+    deep_run(ctx, &mut acc, &C08_DETS);
     floors(ctx, &mut acc, &C08_DETS, ctx.tier.pick(50, 500), ctx.tier.pick(50, 500));
     let cells = acc.cov.keys().filter(|k| k.starts_with("write:")).count();
     meta.extra.insert("distinct_write_operator_x_position_cells".into(), json!(cells));
@@ -850,6 +890,7 @@ fn c09_file(version: &str, spelling: usize, placement: usize, body_kind: usize, 
             items.push(sol(&mut b));
             items.push(abi(&mut b));
         }
+        5 | 6 => {} // the solidity pragma follows the first definition / closes the file (added below)
         _ => items.push(sol(&mut b)),
     }
     // body: SafeMath at contract level / file level / absent; requires with strings of various lengths
@@ -905,6 +946,16 @@ fn c09_file(version: &str, spelling: usize, placement: usize, body_kind: usize, 
     if placement == 4 {
         items.push(abi(&mut b));
     }
+    if placement == 5 {
+        items.push(sol(&mut b));
+        let id = b.ids.next();
+        items.push(Item::Part(Part::Enum(id, "Tail".into(), vec!["A".into()])));
+    }
+    if placement == 6 {
+        let id = b.ids.next();
+        items.push(Item::Part(Part::Enum(id, "Tail".into(), vec!["A".into()])));
+        items.push(sol(&mut b));
+    }
     drop(b);
     File { items }
 }
@@ -934,7 +985,7 @@ pub fn run_c09(ctx: &Ctx) -> i32 {
         let v = versions[(k % nv) as usize];
         let rep = k / nv;
         let spelling = ((k % nv) + rep * 3) as usize % 8;
-        let placement = ((k % nv) / 7 + rep) as usize % 5;
+        let placement = ((k % nv) / 7 + rep) as usize % 7;
         let body_kind = (k as usize + rep as usize) % 3;
         let vs = format!("{}.{}.{}", v.0, v.1, v.2);
         let f = c09_file(&vs, spelling, placement, body_kind, rng);
@@ -967,7 +1018,7 @@ pub fn run_c09(ctx: &Ctx) -> i32 {
         let v = (if rng.chance(3, 4) { 0 } else { comp(rng) }, comp(rng), comp(rng));
         let vs = format!("{}.{}.{}", v.0, v.1, v.2);
         let f = if k % 2 == 0 {
-            c09_file(&vs, rng.below(8), rng.below(5), rng.below(3), rng)
+            c09_file(&vs, rng.below(8), rng.below(7), rng.below(3), rng)
         } else {
             let mut cfg = Cfg::normal();
             cfg.pragma = Some(format!("{}{}", rng.ps(&["", "^", "=", ">=", "~"]), vs));
